@@ -71,6 +71,8 @@ SYNTACTIC += [
         "copy transfers every attribute and does not alias mutable state"),
     Syn("cotengra.pathfinders.path_basic:ContractionProcessor", ["C18"], lambda: F.single_leg_rule("cotengra.pathfinders.path_basic:ContractionProcessor"),
         "one leg rule: every node the lightweight processor creates by contract_nodes gets its legs from compute_contracted (whose contract is proved)"),
+    Syn("cotengra.slicer:ContractionCosts.from_contraction_tree", ["C07"], lambda: F.kwargs_forwarded("cotengra.slicer:ContractionCosts.from_contraction_tree"),
+        "the cost model built from a tree gets exactly the caller's options: with no explicit original_flops the constructor's proved default (the flops of the given per-slice contractions) is the baseline of `overhead`"),
     Syn("cotengra.reusable:ReusableOptimizer._run_optimizer", ["C16"], lambda: F.keyed_by_thread("cotengra.reusable:ReusableOptimizer._run_optimizer", "_suboptimizers"),
         "per-thread sub-optimizer slot"),
     Syn("cotengra.reusable:ReusableOptimizer.last_opt", ["C16"], lambda: F.keyed_by_thread("cotengra.reusable:ReusableOptimizer.last_opt", "_suboptimizers"),
